@@ -115,22 +115,38 @@ def check(acc, opens, src, origin):
         return info
     c2 = pdiff.calmjs_parse(o, with_comments=True)
     if c2[0] != 'ok':
-        acc.fail(classify(src, o, tree), case, {'bucket': 'calmjs_rejects_output', 'output': o, 'error': c2[1]}, opens)
+        acc.fail(classify(src, o, tree) or parser_side(o), case,
+                 {'bucket': 'calmjs_rejects_output', 'output': o, 'error': c2[1]}, opens)
         return info
     t2 = canon.canon_calmjs(c2[1])
     if t2 != t0:
-        acc.fail(classify(src, o, tree), case, {'bucket': 'reparse_tree_differs', 'output': o,
-                                                'diff': canon.first_diff(t2, t0)}, opens)
+        acc.fail(classify(src, o, tree) or parser_side(o), case,
+                 {'bucket': 'reparse_tree_differs', 'output': o, 'diff': canon.first_diff(t2, t0)}, opens)
         return info
     values2 = [c.value for _, c in attached(c2[1])]
     if values2 != values:
         sig = classify(src, o, tree)
-        if sig is None and printed_in_order(values, o) and is_subsequence(values2, values):
+        if sig is None and all_printed(values, o) and is_subsequence(values2, values):
             # the printer emitted every comment, in order; re-parsing captured only some of them
             sig = 'c13.printed_comment_not_recaptured'
         acc.fail(sig, case, {'bucket': 'comments_lost_or_reordered_after_print', 'output': o,
                              'before': values[:12], 'after': values2[:12]}, opens)
     return info
+
+
+def parser_side(out):
+    """the reference reads the output as the source tree but calmjs does not: a parser-side
+    disagreement on the output, attributed to a listed parser finding if neutralisation removes it"""
+    from harness import findings
+    f2, i2 = pdiff.compare(out)
+    if f2 is None or f2['kind'] == 'exception':
+        return None
+
+    def rerun(t2):
+        g, _ = pdiff.compare(t2)
+        return g
+    sig, _ = findings.classify_parse_failure(out, f2, i2, rerun)
+    return sig
 
 
 def printed_in_order(values, out):
@@ -141,6 +157,13 @@ def printed_in_order(values, out):
             return False
         pos = i + len(v)
     return True
+
+
+def all_printed(values, out):
+    """every captured comment occurs in the output as often as it was captured (print order may differ
+    from traversal order: DoWhile lists its predicate before its body)"""
+    from collections import Counter
+    return all(out.count(v) >= n for v, n in Counter(values).items())
 
 
 def is_subsequence(small, big):
